@@ -15,7 +15,7 @@ ASSUME_COMMON = [
 PROPS = {}
 
 PROPS["C16"] = dict(
-    units=[dict(name="c16-mpi-shim", src="props/c04.cpp", enum=True, deps=["lib/shim/mpi.h"], flags=["-O2", "-DVERIF_T=double", "-DVERIF_AS=16", "-I", "@HERE@/lib/shim", "-pthread"], libs=["-ldl", "-pthread"], quick=dict(shards=2, cases=250), thorough=dict(shards=4, cases=8000)),
+    units=[dict(name="c16-mpi-shim", src="props/c04.cpp", enum=True, floor_exempt=True, deps=["lib/shim/mpi.h"], flags=["-O2", "-DVERIF_T=double", "-DVERIF_AS=16", "-I", "@HERE@/lib/shim", "-pthread"], libs=["-ldl", "-pthread"], quick=dict(shards=2, cases=250), thorough=dict(shards=4, cases=8000)),
            dict(name="c16", src="props/c16.cpp", enum=True)],
     rule="case = (total, world) checked for every rank (world <= 2048) or 8 structural + 24 sampled ranks "
          "against a 128-bit integer tiling model; non-trivial: world >= 2 and total mod world != 0; "
@@ -84,7 +84,7 @@ PROPS["C13"] = dict(
 )
 
 PROPS["C08"] = dict(
-    units=[dict(name="c08-mpi-shim", src="props/c04.cpp", deps=["lib/shim/mpi.h"], flags=["-DVERIF_T=double", "-DVERIF_AS=8", "-I", "@HERE@/lib/shim", "-pthread"], libs=["-ldl", "-pthread"], quick=dict(shards=2, cases=250), thorough=dict(shards=4, cases=8000)),
+    units=[dict(name="c08-mpi-shim", src="props/c04.cpp", floor_exempt=True, deps=["lib/shim/mpi.h"], flags=["-DVERIF_T=double", "-DVERIF_AS=8", "-I", "@HERE@/lib/shim", "-pthread"], libs=["-ldl", "-pthread"], quick=dict(shards=2, cases=250), thorough=dict(shards=4, cases=8000)),
            dict(name="c08", src="props/c08.cpp", deps=["lib/pwc.hpp"], fuzz=dict(seconds=60))],
     rule="3/4 of the cases: chain of 1..30 multi_channel_refine_weights calls (1..40 channels, generated weights incl. "
          "zeros and unnormalised, data all-zero / single / equal / uniform / over +-15 (float) or +-100 decades, beta in "
@@ -108,7 +108,8 @@ PROPS["C08"] = dict(
 )
 
 PROPS["C07"] = dict(
-    units=[dict(name="c07", src="props/c07.cpp", fuzz=dict(seconds=120))],
+    units=[dict(name="c07-mpi-shim", src="props/c04.cpp", floor_exempt=True, deps=["lib/shim/mpi.h"], flags=["-DVERIF_T=double", "-DVERIF_AS=7", "-I", "@HERE@/lib/shim", "-pthread"], libs=["-ldl", "-pthread"], quick=dict(shards=2, cases=250), thorough=dict(shards=4, cases=8000)),
+           dict(name="c07", src="props/c07.cpp", fuzz=dict(seconds=120))],
     rule="6/8 of the cases: chain of 1..50 vegas_refine_pdf calls (1..4 dims, 2..200 bins, alpha in [0,3], start grid "
          "uniform / user (ties, 1e-12 wide bins) / power law / adapted; per-dimension data all-zero, single spike, two "
          "spikes, wide-range reals, denormals, equal, log-uniform over up to the whole exponent range, smooth peak); 1/8: "
@@ -134,7 +135,8 @@ PROPS["C07"] = dict(
 )
 
 PROPS["C03"] = dict(
-    units=[dict(name="c03-float", src="props/c03.cpp", deps=["lib/runners.hpp", "lib/pwc.hpp"], flags=["-DVERIF_T=float"]),
+    units=[dict(name="c03-mpi-shim", src="props/c04.cpp", floor_exempt=True, deps=["lib/shim/mpi.h"], flags=["-DVERIF_T=float", "-DVERIF_AS=3", "-I", "@HERE@/lib/shim", "-pthread"], libs=["-ldl", "-pthread"], quick=dict(shards=2, cases=250), thorough=dict(shards=4, cases=8000)),
+           dict(name="c03-float", src="props/c03.cpp", deps=["lib/runners.hpp", "lib/pwc.hpp"], flags=["-DVERIF_T=float"]),
            dict(name="c03-double", src="props/c03.cpp", deps=["lib/runners.hpp", "lib/pwc.hpp"], flags=["-DVERIF_T=double"]),
            dict(name="c03-ldouble", src="props/c03.cpp", deps=["lib/runners.hpp", "lib/pwc.hpp"], flags=["-DVERIF_T=long double"])],
     rule="case = integrator (PLAIN / VEGAS / multi-channel on the PWC family) x one of the nine standard engines x "
@@ -232,7 +234,8 @@ PROPS["C14"] = dict(
 )
 
 PROPS["C02"] = dict(
-    units=[dict(name="c02", src="props/c02.cpp", deps=["lib/pwc.hpp", "lib/exactsum.hpp"])],
+    units=[dict(name="c02-mpi-shim", src="props/c04.cpp", floor_exempt=True, deps=["lib/shim/mpi.h"], flags=["-DVERIF_T=double", "-DVERIF_AS=2", "-I", "@HERE@/lib/shim", "-pthread"], libs=["-ldl", "-pthread"], quick=dict(shards=2, cases=250), thorough=dict(shards=4, cases=8000)),
+           dict(name="c02", src="props/c02.cpp", deps=["lib/pwc.hpp", "lib/exactsum.hpp"])],
     rule="case = numeric type x integrator (PLAIN 1-4 dims / VEGAS 1-4 dims, 2-16 bins, uniform or user grid, adapting / "
          "multi-channel PWC 1-5 channels with generated weights incl. zeros) x 1..4 iterations with N from {0..3, odd, "
          "0..2000, 10..310} x one of 9 dictated value patterns (all zero, rare non-zero, alternating sign, random sign and "
@@ -281,7 +284,8 @@ PROPS["C06"] = dict(
 )
 
 PROPS["C11"] = dict(
-    units=[dict(name="c11", src="props/c11.cpp", deps=["lib/pwc.hpp"], compilers=["g++", "clang++"], fuzz=dict(seconds=60))],
+    units=[dict(name="c11-mpi-shim", src="props/c04.cpp", floor_exempt=True, deps=["lib/shim/mpi.h"], flags=["-DVERIF_T=float", "-DVERIF_AS=11", "-I", "@HERE@/lib/shim", "-pthread"], libs=["-ldl", "-pthread"], quick=dict(shards=2, cases=250), thorough=dict(shards=4, cases=8000)),
+           dict(name="c11", src="props/c11.cpp", deps=["lib/pwc.hpp"], compilers=["g++", "clang++"], fuzz=dict(seconds=60))],
     rule="case = numeric type x 1..3 distributions (1-d / 2-d, 1..12 bins per axis, ranges unit / negative / quarter "
          "steps / tiny 10^-30 (float 10^-8) / huge 10^30 (float 10^8) / narrow far from 0 / generated); (A) every "
          "candidate coordinate - each edge min + k size and its two neighbours, interior points, x_max, just below x_min, "
@@ -329,7 +333,7 @@ PROPS["C10"] = dict(
 )
 
 PROPS["C12"] = dict(
-    units=[dict(name="c12-mpi-shim", src="props/c04.cpp", deps=["lib/shim/mpi.h"], flags=["-DVERIF_T=double", "-DVERIF_AS=12", "-I", "@HERE@/lib/shim", "-pthread"], libs=["-ldl", "-pthread"], quick=dict(shards=2, cases=250), thorough=dict(shards=4, cases=8000)),
+    units=[dict(name="c12-mpi-shim", src="props/c04.cpp", floor_exempt=True, deps=["lib/shim/mpi.h"], flags=["-DVERIF_T=double", "-DVERIF_AS=12", "-I", "@HERE@/lib/shim", "-pthread"], libs=["-ldl", "-pthread"], quick=dict(shards=2, cases=250), thorough=dict(shards=4, cases=8000)),
            dict(name="c12", src="props/c12.cpp", deps=["lib/runners.hpp", "lib/pwc.hpp"])],
     rule="case = numeric type x integrator (generated configuration as in C03, mt19937) x iteration list of 0..8 entries "
          "(calls 0..2 or 4..304) x one of three layers: (i) logging callback returning false at invocation 1..n+1 or never, "
@@ -379,7 +383,7 @@ PROPS["C17"] = dict(
 )
 
 PROPS["C19"] = dict(
-    units=[dict(name="c19-mpi-shim", src="props/c04.cpp", deps=["lib/shim/mpi.h"], flags=["-DVERIF_T=double", "-DVERIF_AS=19", "-I", "@HERE@/lib/shim", "-pthread"], libs=["-ldl", "-pthread"], quick=dict(shards=2, cases=250), thorough=dict(shards=4, cases=8000)),
+    units=[dict(name="c19-mpi-shim", src="props/c04.cpp", floor_exempt=True, deps=["lib/shim/mpi.h"], flags=["-DVERIF_T=double", "-DVERIF_AS=19", "-I", "@HERE@/lib/shim", "-pthread"], libs=["-ldl", "-pthread"], quick=dict(shards=2, cases=250), thorough=dict(shards=4, cases=8000)),
            dict(name="c19", src="props/c19.cpp", deps=["lib/pwc.hpp"])],
     rule="case = numeric type x VEGAS (1-3 dims, 2-25 bins, alpha from {1.5, 0, 0.5, 3, random}, default or user grid) or "
          "multi-channel (1-6 PWC channels, beta, minimum weight, default or user weights incl. zeros / unnormalised) x 1..6 "
@@ -404,7 +408,7 @@ PROPS["C19"] = dict(
 )
 
 PROPS["C20"] = dict(
-    units=[dict(name="c20-mpi-shim", src="props/c04.cpp", deps=["lib/shim/mpi.h"], flags=["-DVERIF_T=float", "-DVERIF_AS=20", "-I", "@HERE@/lib/shim", "-pthread"], libs=["-ldl", "-pthread"], quick=dict(shards=2, cases=250), thorough=dict(shards=4, cases=8000)),
+    units=[dict(name="c20-mpi-shim", src="props/c04.cpp", floor_exempt=True, deps=["lib/shim/mpi.h"], flags=["-DVERIF_T=float", "-DVERIF_AS=20", "-I", "@HERE@/lib/shim", "-pthread"], libs=["-ldl", "-pthread"], quick=dict(shards=2, cases=250), thorough=dict(shards=4, cases=8000)),
            dict(name="c20", src="props/c20.cpp", deps=["lib/runners.hpp", "lib/pwc.hpp"], fuzz=dict(seconds=60))],
     rule="2/3 of the cases: one generated run (PLAIN / VEGAS / multi-channel with 1..40 PWC channels; weight pattern equal / "
          "one large / increasing / ties / disabled / two minimal and many distinct / generated; integrand ordinary, "
@@ -454,7 +458,8 @@ PROPS["C01"] = dict(
 )
 
 PROPS["C18"] = dict(
-    units=[dict(name="c18", src="props/c18.cpp", deps=["lib/runners.hpp", "lib/pwc.hpp"], nosan=True, libs=["-ldl"])],
+    units=[dict(name="c18-mpi-shim", src="props/c04.cpp", floor_exempt=True, deps=["lib/shim/mpi.h"], flags=["-DVERIF_T=double", "-DVERIF_AS=18", "-I", "@HERE@/lib/shim", "-pthread"], libs=["-ldl", "-pthread"], quick=dict(shards=2, cases=250), thorough=dict(shards=4, cases=8000)),
+           dict(name="c18", src="props/c18.cpp", deps=["lib/runners.hpp", "lib/pwc.hpp"], nosan=True, libs=["-ldl"])],
     level="fault_enumeration",
     rule="case = one workload: integrator (generated configuration, float or double, mt19937 or minstd_rand, with / without "
          "distributions, VEGAS up to 6 dims x 128 bins so that checkpoints range from ~200 bytes to ~200 kB) x 1..4 "
@@ -497,7 +502,7 @@ PROPS["C04"] = dict(
     quick=dict(shards=3, cases=300),
     thorough=dict(shards=5, cases=12000),
     floors={"uneven-split": 0.4, "calls<P": 0.2, "P>=9": 0.1, "positive-target": 0.1, "with-distributions": 0.3, "VEGAS": 0.2, "MULTI": 0.2,
-            "engine:range 2^14": 0.08, "engine:independent_bits<7>": 0.08},
+            "engine:range 2^14": 0.08, "engine:independent_bits<7>": 0.08, "non-finite-region": 0.08},
     level_text="differential against the serial integrator from the same checkpoint: for every iteration k the "
                "concatenation in rank order of the per-rank point logs equals bit for bit the point log of the serial "
                "*_iteration run from the generator (rollback(k) on a copy) and the grid / weights the MPI checkpoint records "
